@@ -18,7 +18,8 @@ import gen_designs
 import nlx
 
 RULE = ('random API-built designs (registers with/without reset_value, read/write memories with initial '
-        'contents, ROMs from list/dict/function, all 16 ops, widths 1..130) x {copy_block, synthesize, '
+        'contents, ROMs from list/dict/function, ROMs with pad_with_zeros=True and PARTIAL romdata (short list/tuple, '
+        'dict with holes) read inside and outside the data, all 16 ops, widths 1..130) x {copy_block, synthesize, '
         'optimize}(update_working_block=False) x {source is / is not the working block} x 2 edit/simulate '
         'sequences (add net, rename wire, remove wire+net, set reset_value, interleaved simulation with '
         'memory writes); distinct by (design hash, api, scenario, edit script); non-trivial when the design '
@@ -96,11 +97,33 @@ def wire_attrs(w):
             w.reset_value if isinstance(w, pyrtl.Register) else None)
 
 
+def rom_data_addresses(m):
+    """which addresses the romdata itself defines (independent of pad_with_zeros)"""
+    data = m.data
+    if callable(data):
+        return 'function'
+    if isinstance(data, dict):
+        return tuple(sorted(a for a in data if isinstance(a, int) and 0 <= a < (1 << m.addrwidth)))
+    try:
+        return tuple(range(min(len(data), 1 << m.addrwidth)))
+    except TypeError:
+        return 'unknown'
+
+
+MEM_ATTR_NAMES = ['id', 'name', 'class', 'bitwidth', 'addrwidth', 'asynchronous', 'rom_contents',
+                  'max_read_ports', 'max_write_ports', 'pad_with_zeros', 'build_new_roms', 'rom_data_addresses']
+
+
 def mem_attrs(m):
+    """every constructor attribute of MemBlock/RomBlock that affects behaviour or export; ROM contents
+    tabulated over every address (None = reading that address raises)"""
+    rom = isinstance(m, pyrtl.RomBlock)
     return (m.id, m.name, type(m).__name__, m.bitwidth, m.addrwidth, bool(m.asynchronous),
-            rom_table(m) if isinstance(m, pyrtl.RomBlock) else None,
+            rom_table(m) if rom else None,
             m.max_read_ports, m.max_write_ports,
-            getattr(m, 'pad_with_zeros', None))
+            bool(m.pad_with_zeros) if rom else None,
+            bool(m.build_new_roms) if rom else None,
+            rom_data_addresses(m) if rom else None)
 
 
 def net_attrs(n):
@@ -364,9 +387,51 @@ def build(ctx, i):
                'slice', 'index', 'const', 'trunc', 'zext', 'sext', 'memrd', 'romrd', 'select']
         d = gen_designs.make_design(rng, wide_prob=0.25, ops_subset=ops, n_ops=rng.randint(4, 12))
     ncyc = rng.randint(3, 6 if ctx.tier == 'quick' else 12)
+    holes = add_padded_rom(rng, d) if rng.random() < 0.6 else None
     _, memmap, inputs = gen_designs.make_stimulus(rng, d, ncyc)
+    if holes is not None:
+        # make sure the run reads outside AND inside the romdata
+        inside, outside = holes
+        inputs[0]['c11_ra'] = rng.choice(outside)
+        if inside:
+            inputs[1]['c11_ra'] = rng.choice(inside)
+        inputs[-1]['c11_ra'] = rng.choice(outside)
     memmap_by_id = {m.id: dict(c) for m, c in memmap.items()}
     return d, memmap, memmap_by_id, inputs
+
+
+def add_padded_rom(rng, d):
+    """a RomBlock with pad_with_zeros=True whose romdata does NOT cover the address space (list shorter than
+    2^addrwidth / dict with holes), addressed by its own Input so the stimulus can reach the holes; built
+    through the public API in the design's block.  Returns (addresses inside the data, addresses outside)."""
+    aw = rng.randint(2, 4)
+    bw = rng.choice([1, 2, 3, 5, 8, 33])
+    size = 1 << aw
+    kind = rng.choice(['short-list', 'holey-dict', 'short-tuple'])
+    if kind == 'holey-dict':
+        inside = sorted(rng.sample(range(size), rng.randint(1, size - 1)))
+        data = {a: gen_designs.boundary_value(rng, bw) | 1 for a in inside}
+    else:
+        n = rng.randint(1, size - 1)
+        inside = list(range(n))
+        data = [gen_designs.boundary_value(rng, bw) | 1 for _ in inside]
+        if kind == 'short-tuple':
+            data = tuple(data)
+    outside = [a for a in range(size) if a not in inside]
+    with pyrtl.set_working_block(d.block, no_sanity_check=True):
+        ra = pyrtl.Input(aw, 'c11_ra')
+        rom = pyrtl.RomBlock(bitwidth=bw, addrwidth=aw, romdata=data, name='c11_padrom', max_read_ports=None,
+                             asynchronous=True, pad_with_zeros=True)
+        o = pyrtl.Output(bw, 'c11_padrom_out')
+        o <<= rom[ra]
+        if d.regs and rng.random() < 0.5:       # a second port addressed from inside the design
+            r = d.regs[0]
+            o2 = pyrtl.Output(bw, 'c11_padrom_out2')
+            o2 <<= rom[r[:aw] if len(r) >= aw else r.zero_extended(aw)]
+    d.inputs.append(ra)
+    d.roms.append(rom)
+    d.ops.append('padromrd:' + kind)
+    return inside, outside
 
 
 def observe(block, inputs, memmap_by_id, src_mems=None):
@@ -467,12 +532,8 @@ def check_one(ctx, i, api, scenario, src, memmap_by_id, inputs, base, chain=None
                 viol('memory-missing:%s' % api, 'memory id %d absent from the result' % mid_)
             continue
         a0, a1 = mem_attrs(m0), mem_attrs(m1)
-        names = ['id', 'name', 'class', 'bitwidth', 'addrwidth', 'asynchronous', 'rom_contents',
-                 'max_read_ports', 'max_write_ports', 'pad_with_zeros']
-        for nm, x0, x1 in zip(names, a0, a1):
+        for nm, x0, x1 in zip(MEM_ATTR_NAMES, a0, a1):
             if x0 != x1:
-                if nm in ('max_read_ports', 'max_write_ports') and api != 'copy_block':
-                    continue
                 viol('memory-attribute-changed:%s:%s' % (api, nm),
                      '%s: memory %s attribute %s is %r in the source and %r in the result' % (api, m0.name, nm, x0, x1))
         if (len(m0.readport_nets), len(m0.writeport_nets)) != (len(m1.readport_nets), len(m1.writeport_nets)):
